@@ -57,6 +57,12 @@ pub enum TOp {
     MaxAll,
     /// `it.by_ref().skip_while(..)` dropping k items, then `next()`
     SkipWhile(usize),
+    /// `ckpt = it.clone()`
+    Checkpoint,
+    /// `it.clone_from(&ckpt)` (rewind to the checkpoint; no-op without one)
+    Rewind,
+    /// `it = it.clone()` (continue with the clone)
+    SwapToClone,
 }
 
 impl TOp {
@@ -85,11 +91,14 @@ impl TOp {
             TOp::FoldAll => "fold_all",
             TOp::MaxAll => "max_all",
             TOp::SkipWhile(_) => "skip_while",
+            TOp::Checkpoint => "checkpoint",
+            TOp::Rewind => "rewind",
+            TOp::SwapToClone => "swap_to_clone",
         }
     }
     fn k(&self) -> usize {
         match self {
-            TOp::Next | TOp::NextBack | TOp::FoldAll | TOp::MaxAll => 0,
+            TOp::Next | TOp::NextBack | TOp::FoldAll | TOp::MaxAll | TOp::Checkpoint | TOp::Rewind | TOp::SwapToClone => 0,
             TOp::Nth(k)
             | TOp::NthBack(k)
             | TOp::TakeCount(k)
@@ -130,10 +139,13 @@ impl TOp {
             "fold_all" => TOp::FoldAll,
             "max_all" => TOp::MaxAll,
             "skip_while" => TOp::SkipWhile(k),
+            "checkpoint" => TOp::Checkpoint,
+            "rewind" => TOp::Rewind,
+            "swap_to_clone" => TOp::SwapToClone,
             _ => return Err(format!("bad typed op {name}")),
         })
     }
-    pub const NAMES: [&'static str; 20] = [
+    pub const NAMES: [&'static str; 23] = [
         "next",
         "next_back",
         "nth",
@@ -154,6 +166,9 @@ impl TOp {
         "fold_all",
         "max_all",
         "skip_while",
+        "checkpoint",
+        "rewind",
+        "swap_to_clone",
     ];
 }
 
@@ -193,19 +208,22 @@ impl TTerm {
         [TTerm::Drain, TTerm::Count, TTerm::Last, TTerm::Fold, TTerm::ForEach, TTerm::CollectTrusted];
 }
 
-/// (name, double-ended)
-pub const ROOTS: [(&str, bool); 11] = [
-    ("vec_titer", true),
-    ("vec_to_trust", true),
-    ("deque_to_trust", true),
-    ("array1_to_trust", true),
-    ("sim_to_trust", true),
-    ("to_trust_rev", true),
-    ("to_trust_map", true),
-    ("opt_titer", true),
-    ("rolling_custom_iter", false),
-    ("vabs", false),
-    ("ffill", false),
+/// (name, double-ended, cloneable)
+pub const ROOTS: [(&str, bool, bool); 14] = [
+    ("cloned_iter_to_trust", true, true),
+    ("range_to_trust", true, true),
+    ("sim_clone_to_trust", true, true),
+    ("vec_titer", true, false),
+    ("vec_to_trust", true, false),
+    ("deque_to_trust", true, false),
+    ("array1_to_trust", true, false),
+    ("sim_to_trust", true, false),
+    ("to_trust_rev", true, false),
+    ("to_trust_map", true, false),
+    ("opt_titer", true, false),
+    ("rolling_custom_iter", false, false),
+    ("vabs", false, false),
+    ("ffill", false, false),
 ];
 
 #[derive(Clone, Debug, PartialEq)]
@@ -265,9 +283,11 @@ struct StepOut {
 }
 
 macro_rules! apply_ops {
-    ($it:ident, $ops:expr, de) => {
+    ($it:ident, $ops:expr, de, $cl:tt) => {
+        let mut ckpt = None;
         for op in $ops {
             match op {
+                TOp::Checkpoint | TOp::Rewind | TOp::SwapToClone => apply_ops!(@$cl $it, ckpt, op),
                 TOp::NextBack => {
                     $it.next_back();
                 },
@@ -281,9 +301,11 @@ macro_rules! apply_ops {
             }
         }
     };
-    ($it:ident, $ops:expr, fwd) => {
+    ($it:ident, $ops:expr, fwd, $cl:tt) => {
+        let mut ckpt = None;
         for op in $ops {
             match op {
+                TOp::Checkpoint | TOp::Rewind | TOp::SwapToClone => apply_ops!(@$cl $it, ckpt, op),
                 TOp::NextBack | TOp::NthBack(_) | TOp::RevTakeCount(_) => {
                     panic!("{} back operation on a forward-only root", HARNESS)
                 },
@@ -291,6 +313,25 @@ macro_rules! apply_ops {
             }
         }
     };
+    (@cl $it:ident, $ckpt:ident, $op:expr) => {
+        match $op {
+            TOp::Checkpoint => $ckpt = Some($it.clone()),
+            TOp::Rewind => {
+                if let Some(c) = &$ckpt {
+                    $it.clone_from(c);
+                }
+            },
+            _ => $it = $it.clone(),
+        }
+    };
+    (@nocl $it:ident, $ckpt:ident, $op:expr) => {{
+        let _ = &$op;
+        if false {
+            // fixes the checkpoint's type for roots that cannot be cloned
+            $ckpt = Some(());
+        }
+        panic!("{} clone operation on a root that is not Clone", HARNESS)
+    }};
     (@fwd $it:ident, $op:expr) => {
         match $op {
             TOp::Next => {
@@ -387,13 +428,16 @@ enum TermOut {
 }
 
 macro_rules! run_root {
-    ($mk:expr, $t:expr, $de:tt) => {{
+    ($mk:expr, $t:expr, $de:tt) => {
+        run_root!($mk, $t, $de, nocl)
+    };
+    ($mk:expr, $t:expr, $de:tt, $cl:tt) => {{
         let t: &Typed = $t;
         // probes: after every step, hint vs. what next()-iteration then yields
         let mut steps: Vec<StepOut> = Vec::new();
         for cut in 0..=t.script.len() {
             let mut it = $mk;
-            apply_ops!(it, &t.script[..cut], $de);
+            apply_ops!(it, &t.script[..cut], $de, $cl);
             let hint = it.size_hint();
             let tl_len = if hint.1.is_some() { Some(TrustedLen::len(&it)) } else { None };
             let cap = hint.1.unwrap_or(4096).min(4096) + 16;
@@ -417,7 +461,7 @@ macro_rules! run_root {
         // terminal through the iterator's own consuming method, only on a clean history
         let term = if clean && t.terminal != TTerm::Drain {
             let mut it = $mk;
-            apply_ops!(it, &t.script[..], $de);
+            apply_ops!(it, &t.script[..], $de, $cl);
             Some(match t.terminal {
                 TTerm::Count => TermOut::Count(Iterator::count(it)),
                 TTerm::Last => TermOut::Last(Iterator::last(it).map(|v| f64::to_bits(v_bits(&v)))),
@@ -471,6 +515,9 @@ fn run(t: &Typed) -> Result<(Vec<StepOut>, Option<TermOut>), String> {
     let w = t.param.max(1);
     guarded(|| -> Result<(Vec<StepOut>, Option<TermOut>), String> {
         Ok(match t.root.as_str() {
+            "cloned_iter_to_trust" => run_root!(d.iter().cloned().to_trust(n), t, de, cl),
+            "range_to_trust" => run_root!((0..n as i32).to_trust(n), t, de, cl),
+            "sim_clone_to_trust" => run_root!(SimSource::new(d.clone()).to_trust(n), t, de, cl),
             "vec_titer" => run_root!(d.titer(), t, de),
             "vec_to_trust" => run_root!(d.titer().to_trust(n), t, de),
             "deque_to_trust" => {
@@ -508,12 +555,16 @@ fn run(t: &Typed) -> Result<(Vec<StepOut>, Option<TermOut>), String> {
 pub fn check_typed(t: &Typed) -> (Vec<Violation>, RunStats) {
     let mut st = RunStats::default();
     let mut viol = vec![];
-    let de = ROOTS.iter().find(|(n, _)| *n == t.root).map(|(_, d)| *d);
+    let de = ROOTS.iter().find(|(n, _, _)| *n == t.root).map(|(_, d, c)| (*d, *c));
     let stage = format!("typed:{}", t.root);
-    let Some(de) = de else {
+    let Some((de, cl)) = de else {
         st.harness_error = Some(format!("{HARNESS} unknown typed root {}", t.root));
         return (viol, st);
     };
+    if !cl && Iterator::any(&mut t.script.iter(), |o| matches!(o, TOp::Checkpoint | TOp::Rewind | TOp::SwapToClone)) {
+        st.harness_error = Some(format!("{HARNESS} clone operation on a root that is not Clone"));
+        return (viol, st);
+    }
     if !de && Iterator::any(&mut t.script.iter(), |o| o.needs_de()) {
         st.harness_error = Some(format!("{HARNESS} back operation on a forward-only root"));
         return (viol, st);
@@ -617,10 +668,13 @@ pub fn check_typed(t: &Typed) -> (Vec<Violation>, RunStats) {
     (viol, st)
 }
 
-fn gen_op(rng: &mut Rng, de: bool) -> TOp {
+fn gen_op(rng: &mut Rng, de: bool, cl: bool) -> TOp {
     loop {
         let name = TOp::NAMES[rng.below(TOp::NAMES.len())];
         let op = TOp::make(name, rng.below(4)).unwrap();
+        if !cl && matches!(op, TOp::Checkpoint | TOp::Rewind | TOp::SwapToClone) {
+            continue;
+        }
         if de || !op.needs_de() {
             return op;
         }
@@ -628,7 +682,7 @@ fn gen_op(rng: &mut Rng, de: bool) -> TOp {
 }
 
 pub fn gen_typed(rng: &mut Rng, max_len: usize) -> Typed {
-    let (root, de) = ROOTS[rng.below(ROOTS.len())];
+    let (root, de, cl) = ROOTS[rng.below(ROOTS.len())];
     let len = match rng.below(6) {
         0 => 0,
         1 => 1,
@@ -639,7 +693,7 @@ pub fn gen_typed(rng: &mut Rng, max_len: usize) -> Typed {
         root: root.to_string(),
         len,
         param: 1 + rng.below(len + 2),
-        script: (0..n_ops).map(|_| gen_op(rng, de)).collect(),
+        script: (0..n_ops).map(|_| gen_op(rng, de, cl)).collect(),
         terminal: TTerm::ALL[rng.below(TTerm::ALL.len())],
     }
 }
@@ -647,13 +701,20 @@ pub fn gen_typed(rng: &mut Rng, max_len: usize) -> Typed {
 /// every root x length x single step (every k) x terminal, and every ordered pair of steps
 pub fn directed(max_len: usize) -> Vec<Typed> {
     let mut out = vec![];
-    for (root, de) in ROOTS {
+    for (root, de, cl) in ROOTS {
         for len in 0..=max_len {
             let mut singles = vec![];
             for name in TOp::NAMES {
                 for k in 0..=3usize {
                     let op = TOp::make(name, k).unwrap();
-                    if matches!(op, TOp::Next | TOp::NextBack | TOp::FoldAll | TOp::MaxAll) && k > 0 {
+                    if matches!(
+                        op,
+                        TOp::Next | TOp::NextBack | TOp::FoldAll | TOp::MaxAll | TOp::Checkpoint | TOp::Rewind | TOp::SwapToClone
+                    ) && k > 0
+                    {
+                        continue;
+                    }
+                    if !cl && matches!(op, TOp::Checkpoint | TOp::Rewind | TOp::SwapToClone) {
                         continue;
                     }
                     if de || !op.needs_de() {
@@ -665,6 +726,28 @@ pub fn directed(max_len: usize) -> Vec<Typed> {
                 out.push(Typed { root: root.into(), len, param: 2, script: vec![], terminal: term });
                 for a in &singles {
                     out.push(Typed { root: root.into(), len, param: 1 + len / 2, script: vec![a.clone()], terminal: term });
+                }
+            }
+            // checkpoint, consume somehow, rewind / continue with a clone
+            for a in singles.iter().filter(|_| cl) {
+                if matches!(a, TOp::Checkpoint | TOp::Rewind | TOp::SwapToClone) {
+                    continue;
+                }
+                for tail in [TOp::Rewind, TOp::SwapToClone] {
+                    out.push(Typed {
+                        root: root.into(),
+                        len,
+                        param: 2,
+                        script: vec![TOp::Next, TOp::Checkpoint, a.clone(), tail.clone()],
+                        terminal: if a.k() % 2 == 0 { TTerm::Drain } else { TTerm::CollectTrusted },
+                    });
+                    out.push(Typed {
+                        root: root.into(),
+                        len,
+                        param: 2,
+                        script: vec![TOp::Checkpoint, a.clone(), a.clone(), tail],
+                        terminal: TTerm::Count,
+                    });
                 }
             }
             if len <= 4 {
